@@ -15,7 +15,9 @@
 //   diff_trace TYPE f64 <args> <params> | <argument tuple at every evaluation of f, in order>
 //   aud_diff   TYPE f64 <args> <params> | eJ sJ eH sH restore value_ok const_ok eSub passthrough nevals
 #include <smooth/bundle.hpp>
+#include <smooth/c1.hpp>
 #include <smooth/diff.hpp>
+#include <smooth/so2.hpp>
 #include <smooth/se2.hpp>
 #include <smooth/se3.hpp>
 #include <smooth/so3.hpp>
@@ -62,6 +64,8 @@ struct Reader
 
 template<class G> struct GName;
 template<> struct GName<smooth::SO3d> { static std::string name() { return "SO3"; } };
+template<> struct GName<smooth::SO2d> { static std::string name() { return "SO2"; } };
+template<> struct GName<smooth::C1d> { static std::string name() { return "C1"; } };
 template<> struct GName<smooth::SE2d> { static std::string name() { return "SE2"; } };
 template<> struct GName<smooth::SE3d> { static std::string name() { return "SE3"; } };
 template<int N> struct GName<Eigen::Matrix<double, N, 1>> { static std::string name() { return "T" + std::to_string(N); } };
@@ -151,6 +155,8 @@ struct FamBase
   using Args                 = std::tuple<A...>;
   static constexpr size_t NA = sizeof...(A);
   Trace * trace              = nullptr;
+  // is the callable smooth at these arguments (the property is about smooth f)?
+  static bool admissible(const A &...) { return true; }
   void record(const A &... a) const
   {
     if (!trace) return;
@@ -283,6 +289,9 @@ struct Rminus : FamBase<Rminus<G, WithD>, G, G>
   void params_put(std::vector<double> &) const {}
   bool params_get(Reader &, const std::tuple<G, G> &) { return true; }
   void params_gen(Rng &, const std::tuple<G, G> &, int) {}
+  // x - y is discontinuous where the relative rotation is pi: stay away from it (computed from
+  // the group operations, not from the function under test)
+  static bool admissible(const G & x, const G & y) { return (y.inverse() * x).log().cwiseAbs().maxCoeff() < 3.0; }
   typename G::Tangent operator()(const G & x, const G & y) const { this->record(x, y); return smooth::rminus(x, y); }
   Eigen::MatrixXd J(const G & x, const G & y) const
   {
@@ -748,6 +757,45 @@ struct GenArg<G>
     return G::exp(a);
   }
 };
+// commutative rotation groups: angles at and around the +-pi branch cut of log (the difference
+// quotients go through rminus<Result>, which must be the principal difference across the cut)
+// Consecutive calls produce the two arguments of a pair; the pairs cycle through
+//   (pi, 0) (pi-u, 0) (0, -pi+u) (pi-u, -pi+u') (generic, generic) (0, pi)      u in [1e-9, 1e-2]
+// so that products sit on / next to the cut (the +eps perturbation crosses it) and differences
+// of elements on opposite sides of the cut occur.
+inline double cut_angle(Rng & r, int)
+{
+  static int counter = 0;
+  const int pair = (counter / 2) % 6, pos = counter % 2;
+  ++counter;
+  const double u = r.logu(1e-9, 1e-2);
+  switch (pair) {
+  case 0: return pos == 0 ? M_PI : 0.0;
+  case 1: return pos == 0 ? M_PI - u : 0.0;
+  case 2: return pos == 0 ? 0.0 : -M_PI + u;
+  case 3: return pos == 0 ? M_PI - u : -M_PI + u;
+  case 4: return r.uni(-3.0, 3.0);
+  default: return pos == 0 ? 0.0 : M_PI;
+  }
+}
+template<>
+struct GenArg<smooth::SO2d>
+{
+  static smooth::SO2d make(Rng & r, int k) { return smooth::SO2d::exp(Eigen::Matrix<double, 1, 1>(cut_angle(r, k))); }
+};
+template<>
+struct GenArg<smooth::C1d>
+{
+  static smooth::C1d make(Rng & r, int k) { return smooth::C1d::exp(Eigen::Vector2d(r.uni(-0.5, 0.5), cut_angle(r, k))); }
+};
+template<>
+struct GenArg<smooth::Bundle<smooth::SO2d, Eigen::Vector2d>>
+{
+  static smooth::Bundle<smooth::SO2d, Eigen::Vector2d> make(Rng & r, int k)
+  {
+    return smooth::Bundle<smooth::SO2d, Eigen::Vector2d>::exp(Eigen::Vector3d(cut_angle(r, k), coord_in_class(r), coord_in_class(r)));
+  }
+};
 template<int N>
 struct GenArg<Eigen::Matrix<double, N, 1>>
 {
@@ -851,6 +899,11 @@ template<bool W> using ProdSO3   = Prod<smooth::SO3d, W>;
 template<bool W> using ProdSE2   = Prod<smooth::SE2d, W>;
 template<bool W> using ProdSE3   = Prod<smooth::SE3d, W>;
 template<bool W> using ProdBun   = Prod<smooth::Bundle<smooth::SO3d, Eigen::Vector2d>, W>;
+template<bool W> using ProdSO2   = Prod<smooth::SO2d, W>;
+template<bool W> using ProdC1    = Prod<smooth::C1d, W>;
+template<bool W> using ProdBunC  = Prod<smooth::Bundle<smooth::SO2d, Eigen::Vector2d>, W>;
+template<bool W> using RminusSO2 = Rminus<smooth::SO2d, W>;
+template<bool W> using RminusC1  = Rminus<smooth::C1d, W>;
 template<bool W> using LogSO3    = Log<smooth::SO3d, W>;
 template<bool W> using LogSE2    = Log<smooth::SE2d, W>;
 template<bool W> using LogBun    = Log<smooth::Bundle<smooth::SO3d, Eigen::Vector2d>, W>;
@@ -891,6 +944,13 @@ void catalogue(V && visit)
 #elif FAMILY == 5
   configs<ProdBun>(visit);
   configs<LogBun>(visit);
+#elif FAMILY == 6
+  // commutative rotation groups at the branch cut
+  configs<ProdSO2>(visit);
+  configs<ProdC1>(visit);
+  configs<ProdBunC>(visit);
+  configs<RminusSO2>(visit);
+  configs<RminusC1>(visit);
 #endif
 }
 
@@ -915,7 +975,9 @@ struct GenVisitor
     using Tup = typename C::Tup;
     const std::string tok = C::type_token();
     for (int i = 0; i < n; ++i) {
-      const Tup a = gen_args<Tup>(r, i, std::make_index_sequence<C::NA>{});
+      Tup a = gen_args<Tup>(r, i, std::make_index_sequence<C::NA>{});
+      for (int t = 0; t < 40 && !std::apply([](const auto &... v) { return C::Fam::admissible(v...); }, a); ++t)
+        a = gen_args<Tup>(r, i, std::make_index_sequence<C::NA>{});
       typename C::Fam fam;
       fam.params_gen(r, a, i);
       std::vector<double> x;
